@@ -106,12 +106,7 @@ u64 vpx_syscall(u64 nr, ...) { VP_ASSERT(0, "futex syscall: semaphore and monito
 /* fault injection: the element copy constructor (called by micro_queue::push after the ticket was taken and the lane turn acquired)
    throws at a solver-chosen call, at most FAULTS times, only while the threads run */
 int faults_on, nfaults; u8 TI_USER;
-#ifdef FAULT_AT   /* scenario option: the fault position is concrete (the FAULT_AT-th constructor call of the concurrent phase) instead of solver-chosen */
-int nctor;
-void vp_ctor_fault(void) { if (faults_on && nctor++ == FAULT_AT) { nfaults++; vp_throw_user(&TI_USER); } }
-#else
 void vp_ctor_fault(void) { if (faults_on && nfaults < FAULTS && vp_nd_bool()) { nfaults++; vp_throw_user(&TI_USER); } }
-#endif
 #endif
 /* r1::throw_exception: with exceptions compiled out the real one aborts; reaching it without an injected fault is a failure */
 #if ABORTS
